@@ -167,6 +167,13 @@ func c01Drivers() []*icCfg {
 		{Name: "L1-doorkeeper", O: door, Pre: []icOp{S(1)}, Scripts: [][]icOp{{S(1), G(1)}, {S(1), D(1)}, {G(1), S(2), G(2)}}},
 		{Name: "L4-loading", O: big, Loading: true, LoadCost: 1, Scripts: [][]icOp{{L(1)}, {L(1)}, {S(1), D(1)}}},
 		{Name: "L4-loading-reload", O: big, Loading: true, LoadCost: 1, Scripts: [][]icOp{{L(1), G(1)}, {D(1), L(1)}}},
+		// a hit that has to wait for the policy lock before it returns (the read buffer - compiled with 2 slots in these
+		// two scenarios - drains on every second hit) while the entry it found is evicted, recycled through the entry pool
+		// and given to another key: what the hit returns must still be a value of ITS key
+		{Name: "L6-pool-hit-vs-recycle", O: hOpts{MaxSize: 1, ChanSize: 4, BufSize: 2, Pool: true, Stripes: 1}, Pre: []icOp{S(1), G(1)},
+			Scripts: [][]icOp{{G(1), G(1)}, {S(2), S(3)}}},
+		{Name: "L6L-pool-loading-hit-vs-recycle", O: hOpts{MaxSize: 1, ChanSize: 4, BufSize: 2, Pool: true, Stripes: 1}, Loading: true, LoadCost: 1, Pre: []icOp{L(1), L(1)},
+			Scripts: [][]icOp{{L(1), L(1)}, {S(2), S(3)}}},
 		{Name: "L5-range", O: big, Pre: []icOp{S(1), S(3)}, Scripts: [][]icOp{{R}, {S(1), D(3), S(2)}}},
 	}
 }
